@@ -84,4 +84,12 @@ CHECKS = {
         "assumptions": [IO_ASSUME, "the TTHeader layout reference in harness/ref/ttheader.go is correct"],
         "fuzz": [{"name": "FuzzC10TTHDecode", "seconds": 120}],
     },
+    "C13": {
+        "run": "^TestC13_",
+        "level": "exploration",
+        "level_text": "Round-trip and differential oracle: generated well-formed field sequences are converted to the unknown-field tree, compared node by node with the reference decoder (types, ids, values bit-exact, KeyType/ValType only where meaningful), measured and written back (must reproduce the bytes); harness-built normal-form trees must write to the reference encoding and convert back unchanged. All 121 ordered pairs of field types inside nested structs are enumerated.",
+        "level_note": "Trusted: harness/ref encoder/decoder. Domain: canonical boolean encodings, no top-level STOP, nesting <= 60.",
+        "technique": "round-trip + differential property-based testing (rapid) against a reference decoder, enumeration of field-type pairs",
+        "assumptions": [REF_ASSUME],
+    },
 }
